@@ -101,6 +101,9 @@ func (r *run) relabel() {
 		from, to = []string{"C01"}, "C10"
 	case "keepalive":
 		from, to = []string{"C05", "C09"}, "C19"
+	case "teardown":
+		// "its will is dealt with" is part of C16's statement
+		from, to = []string{"C09"}, "C16"
 	case "connect":
 		from, to = []string{"C01", "C08", "C09", "C10"}, "C11"
 	}
